@@ -744,3 +744,31 @@ fn c15_twcc_roundtrip_8() {
     let body = build_twcc_body(&t);
     assert!(body.len() == 24 && parse_twcc_body(&body).unwrap() == t);
 }
+
+// ---------------------------------------------------------------- C07: BYE sub-parser, symbolic length octet
+// (with symbolic TEXT bytes from_utf8_lossy makes CBMC run out of memory; the text is literal ASCII here,
+// the source and — the part that matters for bounds — the reason-length octet are symbolic)
+#[kani::proof]
+#[kani::unwind(10)]
+fn c07_parse_goodbye_symbolic_reason_len() {
+    let s: [u8; 4] = kani::any();
+    let l: u8 = kani::any();
+    let body: [u8; 8] = [s[0], s[1], s[2], s[3], l, b'b', b'y', b'e'];
+    let r = parse_goodbye(1, &body);
+    assert!(r.is_ok() == (l <= 3));
+    core::mem::forget(r);
+}
+
+/// boundary values of the reason-length octet as literals (cheap enough for the quick tier):
+/// exactly fitting (3) is accepted, one past the end (4) and far past (255) are errors, never panics
+#[kani::proof]
+#[kani::unwind(10)]
+fn c07_parse_goodbye_reason_len_boundary() {
+    let s: [u8; 4] = kani::any();
+    let ok = parse_goodbye(1, &[s[0], s[1], s[2], s[3], 3, b'b', b'y', b'e']);
+    assert!(ok.is_ok());
+    core::mem::forget(ok);
+    assert!(parse_goodbye(1, &[s[0], s[1], s[2], s[3], 4, b'b', b'y', b'e']).is_err());
+    assert!(parse_goodbye(1, &[s[0], s[1], s[2], s[3], 255, b'b', b'y', b'e']).is_err());
+    assert!(parse_goodbye(2, &[s[0], s[1], s[2], s[3], 0, 0, 0]).is_err());
+}
